@@ -231,10 +231,10 @@ def parser_errors(chk, P):
 
 
 # ---------------------------------------------------------------------------
-def accepted_counts(P, target, eam):
-    """row counts 1..13 that survive _init_cutoff and the target factory's extract_cutoffs"""
+def accepted_counts(P, target, eam, upto=13):
+    """row counts 1..upto that survive _init_cutoff and the target factory's extract_cutoffs"""
     ok = []
-    for k in range(1, 14):
+    for k in range(1, upto + 1):
         text = "[Tabulation]\ntarget : %s\nnr : %d\nnrho : %d\n[Pair]\nA-B : as.zero\n" % (target, k, k)
         out = parse(P, text)
         if out[0] != "ok":
@@ -279,7 +279,7 @@ def denominators(chk, P):
         inst = I.instantiate(tc, args, {}, None)
         fp = BufV("fp", is_file=True)
         W.run_method(I, inst, "write", [fp])
-        accepted = accepted_counts(P, target, eam)
+        accepted = accepted_counts(P, target, eam, 48 if chk.tier == "thorough" else 13)
         if not accepted:
             raise AnalysisError("validation of target %s accepts no row count in 1..13" % target)
         bad = []
